@@ -181,7 +181,9 @@ func (k Keeper) AddDeposit(ctx sdk.Context, receiverAddr, senderAddr sdk.AccAddr
 			stream, _ = k.GetStream(ctx, receiverAddr, senderAddr)
 		}
 
-		// stream expired or new. Calculate from now
+		// stream expired or new. Calculate from now. The flow (re)starts now, so the time the
+		// stream spent without funds must not count towards the next claim.
+		stream.LastOutflowTime = nowTime
 		depositZeroTime = types.AddSeconds(nowTime, durationExtension)
 	} else {
 		// stream not expired. Add to current deposit zero time
